@@ -661,8 +661,9 @@ def rule_tglf_node_ids(chk, prog):
                                                    "m_w": Fraction(1), "m_h": Fraction(1)})
     seen_map = []
     hooks = {"dialect::SepMatrix::writeTglf": lambda it, n, env: (seen_map.append(dict(it.ev(n["ch"][1], env).d)), "")[1]}
-    for ids in itertools.combinations(range(0, 7), 3):
-        for exts in itertools.product((-1, 0, 3, 5, 6, 7), repeat=3):
+    k_nodes = 4 if chk.tier == "thorough" else 3
+    for ids in itertools.combinations(range(0, 7), k_nodes):
+        for exts in itertools.product((-1, 0, 3, 5, 6, 7), repeat=k_nodes):
             used = [e for e in exts if e >= 0]
             if len(set(used)) != len(used):
                 continue
@@ -683,8 +684,8 @@ def rule_tglf_node_ids(chk, prog):
                     cur = []
                 else:
                     cur.append(t)
-            written = [ln[0] for ln in lines if ln and ln[0] != "#"][:3]
-            if len(written) != 3 or len(set(written)) != 3:
+            written = [ln[0] for ln in lines if ln and ln[0] != "#"][:k_nodes]
+            if len(written) != k_nodes or len(set(written)) != k_nodes:
                 bad = bad or "internal ids %s with external ids %s are written as node ids %s: not distinct" % (list(ids), list(exts), written)
                 continue
             for (i, e), w in zip(zip(ids, exts), written):
